@@ -215,7 +215,7 @@ def gen_layout() -> str:
     if pytolean.selftest(quiet=True):
         raise RuntimeError("harness/pytolean.py fails its self-test (run it as a script)")
     pa = importlib.import_module("Reduino.transpile.parser")
-    return pytolean.module_text("Reduino.Gen.Layout", [pa._indent_of, pa._strip_inline_comment], imports=["Reduino.Lang.Layout"])
+    return pytolean.module_text("Reduino.Gen.Layout", [pa._indent_of, pa._strip_inline_comment, (pa._collect_block, "lines")], imports=["Reduino.Lang.Layout"])
 
 
 def gen_escape() -> str:
@@ -226,10 +226,22 @@ def gen_escape() -> str:
     return pytolean.module_text("Reduino.Gen.Escape", [pa._escape_string_literal], imports=["Reduino.Lang.Escape"])
 
 
-GENERATORS = {"Layout": gen_layout, "Escape": gen_escape, "Host": gen_host, "Pio": gen_pio, "Buzzer": gen_buzzer, "Bind": gen_bind, "Ops": gen_ops, "Eval": gen_eval, "Types": gen_types}
+def gen_utils() -> str:
+    """TRANSLATED (harness/pytolean.py, shape "num"): `Reduino.Utils.map` and `Reduino.Utils.sleep` as Lean definitions over the model's own
+    number type `Val α`, generic in the float carrier `α` exactly as `Host.Utils.map` / `Host.Utils.sleep` are (C20)"""
+    import importlib
+    import pytolean
+    if pytolean.selftest(quiet=True):
+        raise RuntimeError("harness/pytolean.py fails its self-test (run it as a script)")
+    ut = importlib.import_module("Reduino.Utils")
+    return pytolean.module_text("Reduino.Gen.Utils", [(ut.map, "num"), (ut.sleep, "num")], imports=["Reduino.Host.Core"],
+                                preamble="open Reduino\n" + pytolean.NUM_VARIABLES)
+
+
+GENERATORS = {"Layout": gen_layout, "Escape": gen_escape, "Utils": gen_utils, "Host": gen_host, "Pio": gen_pio, "Buzzer": gen_buzzer, "Bind": gen_bind, "Ops": gen_ops, "Eval": gen_eval, "Types": gen_types}
 # generators that are slow (they probe the transpiler) run only for the checks that need them, and in setup
 # translated functions are regenerated for the check whose theorems rest on them (an untranslatable source breaks THAT check's obligation)
-NEEDS = {"Bind": {"C08"}, "Layout": {"C07"}, "Escape": {"C06"}}
+NEEDS = {"Bind": {"C08"}, "Layout": {"C07"}, "Escape": {"C06"}, "Utils": {"C20"}}
 
 
 def regenerate(ctx=None, only=None):
